@@ -51,6 +51,11 @@ impl FileWithHeader {
         path: impl AsRef<Path>,
         user_header: &[u8],
     ) -> Result<FileWithHeader, OpenError> {
+        // check before creating the file, a failed create must not leave one behind
+        let user_header_len: u16 = user_header
+            .len()
+            .try_into()
+            .map_err(|_| OpenError::HeaderTooLarge)?;
         let mut file = match OpenOptions::new()
             .read(true)
             .append(true)
@@ -60,10 +65,6 @@ impl FileWithHeader {
             Ok(file) => file,
             Err(err) => return Err(err)?,
         };
-        let user_header_len: u16 = user_header
-            .len()
-            .try_into()
-            .map_err(|_| OpenError::HeaderTooLarge)?;
         file.write_all(&user_header_len.to_le_bytes())?;
         file.write_all(LINE_ENDS)?;
         file.write_all(user_header)?;
